@@ -1,10 +1,12 @@
 #!/usr/bin/env python3-vt
 """Confirm a seeded change and run the checks against it.
 usage: seedtool.py confirm <ID> <crate> <demo-dest-relpath>      (in the scratch worktree /tmp/seed/<ID>)
-       seedtool.py check <patch> <PROP> [<PROP>...]              (apply to /repo, run ./check, undo)"""
+       seedtool.py check <patch> <PROP> [<PROP>...]              (apply to /repo, run ./check, undo)
+       seedtool.py pcheck <ID> <PROP> [<PROP>...]                (same on a scratch worktree; safe to run several at once)"""
 import sys, os, subprocess, json, shutil, time
 V = os.path.dirname(os.path.dirname(os.path.abspath(__file__)))
 ENV = dict(os.environ, CARGO_NET_OFFLINE="true", CARGO_TARGET_DIR="/tmp/seed/target")
+SRC_REPO = os.environ.get("VERIF_REPO", "/repo")
 
 
 def sh(cmd, cwd, timeout=3600):
@@ -14,6 +16,7 @@ def sh(cmd, cwd, timeout=3600):
 
 def confirm(sid, crate, dest):
     wt = f"/tmp/seed/{sid}"; out = f"/tmp/seed/out/{sid}"
+    if os.path.isdir(f"/tmp/seed/tgt-{sid}"): ENV["CARGO_TARGET_DIR"] = f"/tmp/seed/tgt-{sid}"     # the sub-agent's build, so confirmations can run in parallel
     res = {"id": sid}
     sh("git checkout -q -- . && git clean -fdq", wt)
     # the worktree may predate later fix commits of /repo: bring it to /repo's HEAD
@@ -55,8 +58,33 @@ def check(patch, props, tier="quick"):
     return out
 
 
+def pcheck(sid, props, tier="quick"):
+    """parallel-safe variant of check: the change is applied to a scratch worktree and the checks run with VERIF_REPO,
+    VERIF_WORK, VERIF_EVID, VERIF_REPLAYS pointing into /tmp/seed/chk-<sid>, so /repo and /verif/evidence are untouched"""
+    scr = f"/tmp/seed/chk-{sid}"; repo = scr + "/repo"; patch = f"/tmp/seed/out/{sid}/patch.diff"
+    subprocess.run(["git", "-C", SRC_REPO, "worktree", "remove", "--force", repo], capture_output=True)
+    os.makedirs(scr, exist_ok=True)
+    subprocess.run(["git", "-C", SRC_REPO, "worktree", "add", "--detach", repo, "HEAD"], check=True, capture_output=True)
+    env = dict(os.environ, VERIF_REPO=repo, VERIF_WORK=scr + "/work", VERIF_EVID=scr + "/evidence", VERIF_REPLAYS=scr + "/replays")
+    out = {}
+    try:
+        subprocess.run(["git", "-C", repo, "apply", patch], check=True)
+        for p in props:
+            t = time.time()
+            pr = subprocess.run(["./check", p, "--tier", tier], cwd=V, capture_output=True, text=True, timeout=7200, env=env)
+            lines = [l for l in pr.stdout.split("\n") if l.startswith(("VIOLATION", "INCONCLUSIVE", "  detail"))]
+            out[p] = {"exit": pr.returncode, "s": round(time.time() - t), "lines": [l[:400] for l in lines[:4]]}
+            if pr.returncode not in (0, 1): out[p]["stderr_tail"] = pr.stderr[-1500:]
+    finally:
+        subprocess.run(["git", "-C", SRC_REPO, "worktree", "remove", "--force", repo], capture_output=True)
+        subprocess.run(["rm", "-rf", scr])
+    return out
+
+
 if __name__ == "__main__":
-    if sys.argv[1] == "confirm":
+    if sys.argv[1] == "pcheck":
+        print(json.dumps(pcheck(sys.argv[2], sys.argv[3:]), indent=1))
+    elif sys.argv[1] == "confirm":
         print(json.dumps(confirm(sys.argv[2], sys.argv[3], sys.argv[4]), indent=1))
     else:
         print(json.dumps(check(sys.argv[2], sys.argv[3:]), indent=1))
